@@ -1,64 +1,15 @@
-(* C09/Model.v -- executable model of sophia_iri's validators (iri/src/_regex.rs, _wrapper.rs):
-   the regular expressions are RE-GENERATED from the source (gen/RegexSrc.v) and run by a
-   Brzozowski-derivative matcher; the abstraction of character classes to the fixed atom vocabulary
-   (what the `ka` decision procedure works on) and its alignment check are defined here too.
+(* C09/Model.v -- executable model of sophia_iri:
+   * the validators of iri/src/_regex.rs and the constructors of iri/src/_wrapper.rs: the two regular
+     expressions are RE-GENERATED from the source on every run (gen/RegexSrc.v) and run by the
+     derivative matcher of Regex.v (Regex::is_match on an anchored pattern = whole-string match);
+   * the resolver behind Iri::resolve / BaseIri::resolve (iri/src/resolve.rs), i.e. the parser of the
+     third-party crate oxiri 0.2.11 run with a base (IriParser::parse_relative, parse_relative_slash,
+     parse_path::<true>, remove_last_segment), for references and bases that pass validation;
+   * the harness-facing checkers.
    Definitions only. *)
 From Sophia.Common Require Import Prelude.
 From Sophia.gen Require Export RegexSrc.
-
-(* ---------- character classes ---------- *)
-Definition in_range (c : N) (r : N * N) : bool := (fst r <=? c) && (c <=? snd r).
-Definition inr (c : N) (rs : cclass) : bool := existsb (in_range c) rs.
-
-(* ---------- derivative matcher, generic in the leaf type ---------- *)
-Fixpoint nullable {A} (r : rex A) : bool :=
-  match r with
-  | Emp => false
-  | Eps => true
-  | Lf _ => false
-  | Alt a b => if nullable a then true else nullable b
-  | Cat a b => if nullable a then nullable b else false
-  | Star _ => true
-  end.
-
-Definition mk_alt {A} (a b : rex A) : rex A :=
-  match a, b with
-  | Emp, _ => b
-  | _, Emp => a
-  | _, _ => Alt a b
-  end.
-Definition mk_cat {A} (a b : rex A) : rex A :=
-  match a, b with
-  | Emp, _ => Emp
-  | _, Emp => Emp
-  | Eps, _ => b
-  | _, _ => Cat a b
-  end.
-
-Section Deriv.
-  Context {A : Type} (test : A -> bool).   (* does the current character belong to the leaf? *)
-  Fixpoint deriv (r : rex A) : rex A :=
-    match r with
-    | Emp => Emp
-    | Eps => Emp
-    | Lf a => if test a then Eps else Emp
-    | Alt a b => mk_alt (deriv a) (deriv b)
-    | Cat a b => if nullable a then mk_alt (mk_cat (deriv a) b) (deriv b) else mk_cat (deriv a) b
-    | Star a => mk_cat (deriv a) (Star a)
-    end.
-End Deriv.
-
-Section Match.
-  Context {A : Type} (test : N -> A -> bool).
-  Fixpoint matchg (r : rex A) (w : str) : bool :=
-    match w with
-    | [] => nullable r
-    | c :: w' => matchg (deriv (test c) r) w'
-    end.
-End Match.
-
-(* whole-string match of a regex whose leaves are classes (Regex::is_match with ^...$) *)
-Definition matchb : rex cclass -> str -> bool := matchg inr.
+From Sophia.C09 Require Import Regex Rfc3987 Resolve.
 
 (* ---------- the validators of iri/src/_regex.rs ---------- *)
 Definition is_absolute_iri_ref (s : str) : bool := matchb iri_regex s.
@@ -71,96 +22,98 @@ Definition is_valid_suffixed_iri_ref (ns : str) (suffix : option str) : bool :=
 Definition iri_new_ok (s : str) : bool := is_absolute_iri_ref s.
 Definition iriref_new_ok (s : str) : bool := is_valid_iri_ref s.
 
-(* ---------- atoms ---------- *)
-Definition e_lo (e : N * N * N) : N := fst (fst e).
-Definition e_hi (e : N * N * N) : N := snd (fst e).
-Definition e_atom (e : N * N * N) : N := snd e.
+(* Namespace::new(ns) then .get(suffix) (api/src/ns/_namespace.rs): IriRef::new on the concatenation *)
+Definition namespace_get_ok (ns suffix : str) : bool :=
+  is_valid_iri_ref ns && is_valid_suffixed_iri_ref ns (Some suffix).
 
-(* atom of a code point; [dflt] outside the table *)
-Fixpoint lookup (dflt : N) (t : list (N * N * N)) (c : N) : N :=
-  match t with
-  | [] => dflt
-  | e :: t' => if (e_lo e <=? c) && (c <=? e_hi e) then e_atom e else lookup dflt t' c
-  end.
-Definition atom_of (c : N) : N := lookup n_atoms atom_table c.
+(* ---------- oxiri's resolution (what BaseIri::resolve runs) ---------- *)
+Definition ends_with (suf s : str) : bool :=
+  match strip_prefix (rev suf) (rev s) with Some _ => true | None => false end.
+Definition starts_with (pre s : str) : bool :=
+  match strip_prefix pre s with Some _ => true | None => false end.
 
-(* the table is a contiguous, gap-free chain of non-empty ranges starting at [lo] and ending at [last] *)
-Fixpoint contiguous (lo last : N) (t : list (N * N * N)) : bool :=
-  match t with
-  | [] => false
-  | [e] => (e_lo e =? lo) && (lo <=? e_hi e) && (e_hi e =? last)
-  | e :: t' => (e_lo e =? lo) && (lo <=? e_hi e) && contiguous (e_hi e + 1) last t'
-  end.
-Definition max_cp : N := 1114111.   (* 0x10FFFF *)
-Definition table_ok (t : list (N * N * N)) : bool :=
-  contiguous 0 max_cp t && forallb (fun e => e_atom e <? n_atoms) t.
+(* IriParser::remove_last_segment on the path part of the output *)
+Definition ox_remove_last (has_auth : bool) (p : str) : str :=
+  if existsb (N.eqb k_slash) p then rev (drop_while not_slash (rev p))   (* keep up to the last "/" *)
+  else if has_auth then [k_slash] else [].
 
-(* a table entry lies inside one range of the class / is disjoint from all ranges of the class *)
-Definition entry_in (rs : cclass) (e : N * N * N) : bool :=
-  existsb (fun r => (fst r <=? e_lo e) && (e_hi e <=? snd r)) rs.
-Definition entry_out (rs : cclass) (e : N * N * N) : bool :=
-  forallb (fun r => (snd r <? e_lo e) || (e_hi e <? fst r)) rs.
-Definition memN (a : N) (l : list N) : bool := existsb (N.eqb a) l.
-Fixpoint dedup (l : list N) : list N :=
-  match l with [] => [] | a :: l' => if memN a l' then dedup l' else a :: dedup l' end.
-Definition atoms_in_t (t : list (N * N * N)) (rs : cclass) : list N :=
-  dedup (map e_atom (filter (entry_in rs) t)).
-Definition aligned_t (t : list (N * N * N)) (rs : cclass) : bool :=
-  forallb (fun e => if entry_in rs e then true
-                    else entry_out rs e && negb (memN (e_atom e) (atoms_in_t t rs))) t
-  && forallb (fun r => snd r <=? max_cp) rs.
-Definition atoms_in := atoms_in_t atom_table.
-Definition aligned := aligned_t atom_table.
+(* parse_path::<true>, the branch taken at a "/", "?", "#" or at the end of the input:
+   returns the new path and whether control falls through to the "//" check *)
+Definition ox_close (has_auth : bool) (p : str) (at_slash : bool) : str * bool :=
+  if ends_with [k_slash; k_dot; k_dot] p
+  then (ox_remove_last has_auth (firstn (length p - 3) p), true)
+  else if ends_with [k_slash; k_dot] p || str_eqb p [k_dot] then (removelast p, true)
+  else if str_eqb p [k_dot; k_dot] then ([], true)
+  else if at_slash then (p ++ [k_slash], false)
+  else (p, true).
+(* IriParseErrorKind::PathStartingWithTwoSlashes *)
+Definition ox_ambiguous (has_auth : bool) (p : str) : bool :=
+  negb has_auth && starts_with [k_slash; k_slash] p.
 
-Fixpoint sum_atoms (l : list N) : rex N :=
-  match l with
-  | [] => Emp
-  | [a] => Lf a
-  | a :: l' => Alt (Lf a) (sum_atoms l')
+(* parse_path::<true>: result path and the unread rest of the reference ("?..." / "#..." / "") *)
+Fixpoint ox_path (has_auth : bool) (p : str) (inp : str) : option (str * str) :=
+  match inp with
+  | [] => let (p', _) := ox_close has_auth p false in
+          if ox_ambiguous has_auth p' then None else Some (p', [])
+  | c :: rest =>
+      if N.eqb c k_slash then
+        let (p', fall) := ox_close has_auth p true in
+        if fall && ox_ambiguous has_auth p' then None else ox_path has_auth p' rest
+      else if N.eqb c k_qmark || N.eqb c k_hash then
+        let (p', _) := ox_close has_auth p false in
+        if ox_ambiguous has_auth p' then None else Some (p', inp)
+      else ox_path has_auth (p ++ [c]) rest
   end.
 
-(* replace every class by the sum of the atoms it covers *)
-Fixpoint abstract (r : rex cclass) : rex N :=
-  match r with
-  | Emp => Emp
-  | Eps => Eps
-  | Lf rs => sum_atoms (atoms_in rs)
-  | Alt a b => Alt (abstract a) (abstract b)
-  | Cat a b => Cat (abstract a) (abstract b)
-  | Star a => Star (abstract a)
-  end.
-Fixpoint all_aligned (r : rex cclass) : bool :=
-  match r with
-  | Emp | Eps => true
-  | Lf rs => aligned rs
-  | Alt a b | Cat a b => all_aligned a && all_aligned b
-  | Star a => all_aligned a
-  end.
-
-(* the matcher on the atom level: classify the character once, compare atom numbers *)
-Definition matcha : rex N -> str -> bool := matchg (fun c a => N.eqb (atom_of c) a).
-
-(* structural equality of atom regexes (to compare the translator's abstraction with ours) *)
-Fixpoint rexN_eqb (a b : rex N) : bool :=
-  match a, b with
-  | Emp, Emp | Eps, Eps => true
-  | Lf x, Lf y => N.eqb x y
-  | Alt a1 a2, Alt b1 b2 | Cat a1 a2, Cat b1 b2 => rexN_eqb a1 b1 && rexN_eqb a2 b2
-  | Star a1, Star b1 => rexN_eqb a1 b1
-  | _, _ => false
+(* Iri::resolve: None = Err(IriParseError), which Resolvable::output_abs unwraps (a panic) *)
+Definition resolve_impl (base ref : str) : option str :=
+  let b := parse5 base in
+  let r := parse5 ref in
+  let pre := match p_scheme b with Some s => s ++ [k_colon] | None => [] end in          (* base[..scheme_end] *)
+  let has_auth := match p_authority b with Some _ => true | None => false end in
+  let pre_auth := pre ++ match p_authority b with Some a => k_slash :: k_slash :: a | None => [] end in
+  let bq := match p_query b with Some q => k_qmark :: q | None => [] end in
+  let finish (x : option (str * str)) := match x with Some (p, tail) => Some (pre_auth ++ p ++ tail) | None => None end in
+  match p_scheme r with
+  | Some _ => Some ref                                   (* parse_scheme: copied, no dot removal *)
+  | None =>
+    match ref with
+    | [] => Some (pre_auth ++ p_path b ++ bq)
+    | c :: rest =>
+        if N.eqb c k_slash then
+          match rest with
+          | d :: _ => if N.eqb d k_slash then Some (pre ++ ref)    (* parse_relative_slash, "//": copied *)
+                      else finish (ox_path has_auth [k_slash] rest)
+          | [] => finish (ox_path has_auth [k_slash] rest)
+          end
+        else if N.eqb c k_qmark then Some (pre_auth ++ p_path b ++ ref)
+        else if N.eqb c k_hash then Some (pre_auth ++ p_path b ++ bq ++ ref)
+        else finish (ox_path has_auth (ox_remove_last has_auth (p_path b)) ref)
+    end
   end.
 
-(* ---------- combinators used to transcribe ABNF ---------- *)
-Definition chr (c : N) : rex cclass := Lf [(c, c)].
-Definition rng (lo hi : N) : rex cclass := Lf [(lo, hi)].
-Definition opt {A} (r : rex A) : rex A := Alt r Eps.
-Definition plus {A} (r : rex A) : rex A := Cat r (Star r).
-Fixpoint alts {A} (l : list (rex A)) : rex A :=
-  match l with [] => Emp | [r] => r | r :: l' => Alt r (alts l') end.
-Fixpoint cats {A} (l : list (rex A)) : rex A :=
-  match l with [] => Eps | [r] => r | r :: l' => Cat r (cats l') end.
-(* exactly n / at most n repetitions *)
-Fixpoint rep {A} (n : nat) (r : rex A) : rex A :=
-  match n with O => Eps | S O => r | S n' => Cat r (rep n' r) end.
-Fixpoint rep_le {A} (n : nat) (r : rex A) : rex A :=
-  match n with O => Eps | S n' => Alt Eps (Cat r (rep_le n' r)) end.
+(* ---------- harness-facing checkers ---------- *)
+(* validation: the model (regenerated regexes) against the implementation's four verdicts, the
+   hand-written grammar against the Rust oracle's two verdicts, and Namespace::new(ns).get(suffix)
+   where ns/suffix are the string cut at [cut] *)
+Definition val_ok (s : str) (abs rel iri iref o_iri o_rel : bool) (cut : N) (ns_ok get_ok : bool) : bool :=
+  Bool.eqb (is_absolute_iri_ref s) abs && Bool.eqb (is_relative_iri_ref s) rel &&
+  Bool.eqb (iri_new_ok s) iri && Bool.eqb (iriref_new_ok s) iref &&
+  Bool.eqb (matchb IRI s) o_iri && Bool.eqb (matchb irelative_ref s) o_rel &&
+  (let ns := firstn (N.to_nat cut) s in
+   let suf := skipn (N.to_nat cut) s in
+   Bool.eqb (is_valid_iri_ref ns) ns_ok &&
+   Bool.eqb (namespace_get_ok ns suf) get_ok).
+
+(* resolution: for a pair accepted by the implementation, Iri::resolve returned [obs] (None = it
+   panicked); the model of the code must agree exactly.  (That the result is the one of RFC 3986 5.2
+   and a valid IRI is the PROPERTY: it is checked by the harness oracle, and [spec_res_ok] evaluates
+   the same in Coq.) *)
+Definition res_ok (base ref : str) (obs : option str) : bool :=
+  opt_eqb str_eqb (resolve_impl base ref) obs.
+Definition spec_res_ok (base ref : str) (obs : option str) : bool :=
+  match obs with
+  | Some o => str_eqb (resolve base ref) o && matchb IRI o
+  | None => false
+  end.
+
